@@ -147,11 +147,23 @@ func Check(p *Prop, tier string, workerExe string) int {
 			defer wg.Done()
 			from, skip := 0, 0
 			prog := filepath.Join(progDir, fmt.Sprintf("w%d.json", w))
+			began := time.Now()
+			deaths := 0
 			for attempt := 0; attempt < 5000; attempt++ {
+				// the soft deadline covers all segments of this worker together, and a
+				// worker that keeps dying (every death of a hang costs the watchdog's
+				// full wait) stops after a few deaths: the deaths found so far are reported
+				left := deadline - time.Since(began)
+				if attempt > 0 && (left < 5*time.Second || deaths >= 6) {
+					break
+				}
+				if left < 5*time.Second {
+					left = 5 * time.Second
+				}
 				_ = os.Remove(prog)
 				args := []string{"worker", "-p", p.ID, "-tier", tier, "-seed", strconv.FormatUint(seed, 10),
 					"-worker", strconv.Itoa(w), "-workers", strconv.Itoa(workers), "-known", string(kp),
-					"-deadline", strconv.Itoa(int(deadline.Seconds())), "-from", strconv.Itoa(from), "-skipsub", strconv.Itoa(skip), "-progress", prog,
+					"-deadline", strconv.Itoa(int(left.Seconds())), "-from", strconv.Itoa(from), "-skipsub", strconv.Itoa(skip), "-progress", prog,
 					"-mem", strconv.Itoa(p.MemLimitMiB)}
 				o := runWorkerProc(workerExe, args, deadline*3+120*time.Second, prog, time.Duration(p.HangSeconds)*time.Second)
 				outs[w] = append(outs[w], o)
@@ -177,6 +189,7 @@ func Check(p *Prop, tier string, workerExe string) int {
 				outs[w][len(outs[w])-1].crash = &Failure{Signature: p.ID + "/fatal/" + cls, Detail: "worker process died while executing this trace: " + firstLine(o.err),
 					Seed: seed, RunIndex: pr.Idx, Trace: t, OrigOps: len(t.Ops), MinOps: len(t.Ops), Count: 1}
 				outs[w][len(outs[w])-1].err = ""
+				deaths++
 				// resume: the same run after the sub-run that killed the worker, or
 				// the next run when the death was not inside an announced sub-run
 				if pr.Fault != nil && pr.Sub > 0 {
